@@ -286,6 +286,8 @@ pub enum Fin {
     Err(String, Option<Value>),
     /// some error reply (the statement does not fix which)
     AnyErr,
+    /// any well-shaped final reply (used for mutated-but-well-formed requests)
+    Any,
 }
 
 #[derive(Clone, Debug, PartialEq)]
@@ -294,6 +296,8 @@ pub struct Exp {
     pub oneway: bool,
     /// parameters of the `continues` replies that must precede the final one
     pub conts: Vec<Value>,
+    /// any number of `continues` replies with any parameters is acceptable (only with `more`)
+    pub any_conts: bool,
     pub fin: Fin,
     /// the service may close the connection instead of sending the final reply
     pub may_close_instead: bool,
@@ -373,6 +377,7 @@ pub fn expect(s: Sym, i: usize) -> Exp {
     Exp {
         oneway: s.flag == Flag::Oneway,
         conts,
+        any_conts: false,
         fin,
         may_close_instead,
         upgrades,
@@ -458,6 +463,7 @@ pub fn fin_matches(fin: &Fin, r: &Value) -> bool {
                 }
         }
         Fin::AnyErr => err.is_some(),
+        Fin::Any => true,
     }
 }
 
@@ -527,6 +533,16 @@ pub fn check_replies(
                         short(r)
                     ),
                 ));
+            }
+            if e.any_conts {
+                if reply_shape(r).is_err() {
+                    return Err(Fail::new(
+                        format!("{}/malformed-reply", where_),
+                        format!("reply #{} is not a well-shaped reply object: {}", pos, short(r)),
+                    ));
+                }
+                pos += 1;
+                continue;
             }
             if ci >= e.conts.len() {
                 return Err(Fail::new(
